@@ -34,5 +34,10 @@ def run_case(spec):
         return dict(states=0, transitions=0, nontrivial=False, violations=[], counters=dict(out_of_domain=1))
     w, r = run_spec(spec)
     T = len(r.model.t)
+    if r.model.progset is not None:
+        # the stocks and flows "recorded" in a result are what a user reads after the usual reporting calls: those calls come first
+        for q in ("fraction", "capacity", "eligible", "number"):
+            r.get_coverage(q)
+        r.get_alloc()
     vs = oracles.balance(r)
     return dict(states=T, transitions=T - 1, nontrivial=oracles.has_flow(r), violations=vs, counters={"tag_" + spec.get("tag", "?"): 1})
